@@ -84,6 +84,19 @@ def special_bodies(rng):
             m.fields = [(5, ('b', 'u'), 9), (8, ('b', 'g'), b"v")] if k >= 1 else []
             m.body_types = [ty]; m.body = [val]
             out.append(("variant-depth-%d" % k, m.marshal()))
+        # the value-nesting limit counts every level, whatever it is made of: chains of variants with a container (array of
+        # strings, struct, dict, array of arrays) under the innermost one, around the limit of 64
+        for k in (60, 61, 62, 63, 64, 65):
+            for name, ity, ival in (("as", ('a', ('b', 's')), [b"x"]), ("struct", ('r', [('b', 's')]), [b"x"]),
+                                    ("dict", ('e', 's', ('b', 's')), [(b"k", b"v")]), ("aas", ('a', ('a', ('b', 's'))), [[b"x"]]),
+                                    ("empty-as", ('a', ('b', 's')), []), ("a(ai)", ('a', ('r', [('a', ('b', 'i'))])), [[[1, 2]]])):
+                ty, val = ity, ival
+                for _ in range(k):
+                    val = (ty, val); ty = ('v',)
+                m = wiregen.Message(); m.le = le; m.mtype = 2
+                m.fields = [(5, ('b', 'u'), 9), (8, ('b', 'g'), b"v")]
+                m.body_types = [ty]; m.body = [val]
+                out.append(("variant-chain-%d-over-%s" % (k, name), m.marshal()))
         # structs 31..33 deep, arrays 31..33 deep (signature limits), mixed 32+32
         for k in (31, 32, 33):
             ty = ('b', 'y'); val = 1
